@@ -250,7 +250,7 @@ def build_props(prop):
 
 def run_judge(prop, lines):
     exe = os.path.join(COQ, "build", prop, "judge")
-    env = dict(os.environ, OCAMLRUNPARAM="l=4G")
+    env = dict(os.environ, OCAMLRUNPARAM="l=4G,s=32M")
     p = subprocess.run(["bash", "-c", f"ulimit -s unlimited 2>/dev/null; exec {exe}"], input="\n".join(lines) + "\n",
                        stdout=subprocess.PIPE, stderr=subprocess.PIPE, text=True, env=env)
     out = p.stdout.splitlines()
@@ -301,12 +301,18 @@ def coq_crosscheck(prop, lines, answers, chunk=150):
 
 
 def load_known(prop):
-    path = os.path.join(VERIF, "known_findings.json")
-    try:
-        data = json.load(open(path))
-    except OSError:
-        return {}
-    return {f["code"]: f for f in data.get("findings", []) if f.get("property") == prop}
+    out = {}
+    # the committed file, plus per-property fragments used while a check is being built
+    # (harness/mkmanifest.py folds the fragments into known_findings.json)
+    for path in (os.path.join(VERIF, "known_findings.json"), os.path.join(VERIF, "known_findings.d", prop + ".json")):
+        try:
+            data = json.load(open(path))
+        except OSError:
+            continue
+        for f in data.get("findings", []):
+            if f.get("property") == prop:
+                out[f["code"]] = f
+    return out
 
 
 # ------------------------------------------------------------------ the check driver
@@ -531,7 +537,7 @@ def setup():
     import translate
     t0 = time.time()
     with BuildLock():
-        print("translate:", translate.regenerate(list(translate.GENERATORS), SRC))
+        print("translate:", translate.regenerate(list(translate.all_generators()), SRC))
         bad = []
         for root, _, files in os.walk(COQ):
             if "/build" in root:
